@@ -11,7 +11,7 @@ from vt.rec import jsonable
 PROP = 'C13'
 TITLE = 'own answers are accepted by the checkers'
 SHARDS = {'quick': 16, 'thorough': 32}
-TIMEOUT = {'quick': 900, 'thorough': 3600}
+TIMEOUT = {'quick': 420, 'thorough': 3600}
 REQUIRED = ['notebook:' + t for t in exercises.TEMPLATES]
 EXHAUSTIVE_NOTE = 'no complete sub-space: reference objects are sampled for each of the 20 exercise templates'
 RULE = ('cases are exercise instances: for each of the 20 real notebook templates a reference object (DFA / NFA / pair of DFAs / non-degenerate simple-format grammar / CNF grammar + word / '
